@@ -329,6 +329,11 @@ def ref_format(v, cmap, rec, depth):
             return {'l': [ref_format(x, cmap, rec, depth + 1) for x in v['l']]}
         if 't' in v:
             return {'t': [ref_format(x, cmap, rec, depth + 1) for x in v['t']]}
+        if 's' in v:
+            ms = [ref_format(x, cmap, rec, depth + 1) for x in v['s']]
+            if any(not isinstance(m, (str, int)) or isinstance(m, bool) for m in ms):
+                raise RefUnsupported()
+            return {'s': sorted({repr(m): m for m in ms}.values(), key=pv.set_sort_key)}
         if 'd' in v:
             ks = [ref_format(k, cmap, rec, depth + 1) for k, _ in v['d']]
             if any(not isinstance(k, (str, int)) or isinstance(k, bool) for k in ks) or len(set(map(repr, ks))) != len(ks):
@@ -379,4 +384,15 @@ def gen_rf_case(rng):
     ctx.append(['cont', cont])
     val = rng.choice(['{cont:rf}', '{cont}', '{cont:ff}', {'l': ['{cont:rf}', '{a:rf}']}, '{a:rf}', 'pre {a:rf} post',
                       {'d': [['k', '{cont:rf}']]}, '{a}', 'mix {a} {b:rf} {c:ff}'])
+    if rng.random() < 0.3:
+        # siblings that refer to the SAME context value with different recursion flags: each member
+        # formats as it would on its own, whatever the order
+        k = rng.choice(['a', 'cont', 'b'])
+        pair = [rng.choice(['{%s}', '{%s:ff}']) % k, '{%s:rf}' % k]
+        if rng.random() < 0.5:
+            pair.reverse()
+        shape = rng.choice(['l', 't', 'd', 'nested'])
+        val = {'l': pair} if shape == 'l' else {'t': pair} if shape == 't' else \
+            {'d': [['p', pair[0]], ['q', pair[1]]]} if shape == 'd' else \
+            {'d': [['p', {'l': [pair[0]]}], ['q', {'d': [['r', pair[1]]]}]]}
     return {'ctx': ctx, 'val': val}
